@@ -840,6 +840,15 @@ func FileFlow(d FileParams) *Program {
 		prod = &Stage{Name: "SPLITW", Fn: "SPLITW", Split: true, Ins: []Param{{T: IntT, Name: "n"}},
 			Outs: []Param{{T: txt, Name: "f"}}, ChunkIns: []Param{{T: IntT, Name: "i"}}, ChunkOuts: []Param{{T: txt, Name: "cf"}}}
 		outT = txt
+	case "splitn":
+		// a split stage whose chunks produce no files at all
+		if d.Out != "f" {
+			return nil
+		}
+		txt := FiletypeT("txt")
+		prod = &Stage{Name: "SPLITN", Fn: "SPLITN", Split: true, Ins: []Param{{T: IntT, Name: "n"}},
+			Outs: []Param{{T: txt, Name: "f"}}, ChunkIns: []Param{{T: IntT, Name: "i"}}, ChunkOuts: []Param{{T: IntT, Name: "part"}}}
+		outT = txt
 	default:
 		return nil
 	}
@@ -1057,7 +1066,7 @@ func FileFlow(d FileParams) *Program {
 func FileFamily(maxDev int) []FileParams {
 	outs := []string{"f", "g", "fs", "fm", "s", "ss", "ms", "sp", "um", "d"}
 	projs := []string{"", "f"}
-	prods := []string{"filew", "splitw"}
+	prods := []string{"filew", "splitw", "splitn"}
 	vols := []string{"call", "", "strict", "false"}
 	retains := []string{"", "stage", "pipe"}
 	modes := []string{"rolling", "post", "strict"}
